@@ -96,6 +96,15 @@ def Chain (ns : Nat) : Nat → List (Nat × Nat) → Prop
   | e, (a, b) :: rest =>
     a ≤ e ∧ a < b ∧ b ≤ ns ∧ (if b = ns then Chain ns ns rest else e ≤ b - 1 ∧ Chain ns (b - 1) rest)
 
+/-- `Chain` is decidable (the driver evaluates it on the batch lists of the correspondence run) -/
+instance decChain (ns : Nat) : (e : Nat) → (wins : List (Nat × Nat)) → Decidable (Chain ns e wins)
+  | e, [] => by unfold Chain; exact inferInstance
+  | e, (a, b) :: rest => by
+    unfold Chain
+    have := decChain ns ns rest
+    have := decChain ns (b - 1) rest
+    exact inferInstance
+
 /-! ### 2. Full-scale voltage -/
 
 /-- what `_get_max_int_from_meta` branches on: `typeThis == "imec"` and `"NP2" in version`
